@@ -154,6 +154,7 @@ func doBind(sc *Collection, originalInvokeF *provider, originalInitF *provider, 
 		}
 	}
 	// calculate for the static set
+	var skippedIfStaticFails []typeCode // mapped types output by static injectors later in the chain
 	for i := invokeIndex - 1; i >= 0; i-- {
 		fm := funcs[i]
 		if !fm.include {
@@ -161,8 +162,23 @@ func doBind(sc *Collection, originalInvokeF *provider, originalInitF *provider, 
 			// output must not be zeroed when a fallible static injector fails
 			continue
 		}
-		fm.mustZeroIfRemainderSkipped = vmapMapped(downVmap)
+		fm.mustZeroIfRemainderSkipped = skippedIfStaticFails
 		addToVmap(fm, outputParams, downVmap, fm.downRmap, &vCount)
+		if fm.group == staticGroup {
+			// only static injectors can be skipped: literals and init parameters
+			// are in place before the static chain runs and must not be zeroed
+			later := make([]typeCode, len(skippedIfStaticFails), len(skippedIfStaticFails)+len(fm.flows[outputParams]))
+			copy(later, skippedIfStaticFails)
+			for _, tc := range fm.flows[outputParams] {
+				if rm, found := fm.downRmap[tc]; found {
+					tc = rm
+				}
+				if downVmap[tc] >= 0 {
+					later = append(later, tc)
+				}
+			}
+			skippedIfStaticFails = later
+		}
 	}
 	if initF != nil {
 		for _, tc := range initF.flows[bypassParams] {
